@@ -158,6 +158,11 @@ def configs(ctx: Ctx) -> list[dict[str, Any]]:
     def add(tasks: list[str], hook: str, bound: int = 2) -> None:
         out.append({"tasks": tasks, "hook": hook, "bound": bound})
 
+    def weight(c: dict[str, Any]) -> int:
+        # rough cost: heavy configurations first, so round-robin sharding spreads them
+        pts = sum(17 if ch == "H" else 12 for t in c["tasks"] for ch in t)
+        return int((pts * (len(c["tasks"]) - 1)) ** c["bound"])
+
     if ctx.quick:
         for hook in ("ok", "raise1", "always"):
             add(["H", "H"], hook)
@@ -174,6 +179,7 @@ def configs(ctx: Ctx) -> list[dict[str, Any]]:
         add(["H", "H", "H"], "raise1", 1)
         add(["H", "P", "H"], "ok", 1)
         add(["H", "H", "P"], "raise1", 1)
+        out.sort(key=lambda c: -weight(c))
         return out
     two = [["H", "H"], ["P", "P"], ["H", "P"], ["HH", "H"], ["HH", "HH"], ["PH", "H"], ["PHP", "H"], ["HP", "PH"],
            ["P", "M"], ["M", "M"], ["U", "PM"], ["UH", "HU"], ["PHP", "HPH"]]
@@ -193,6 +199,7 @@ def configs(ctx: Ctx) -> list[dict[str, Any]]:
     for t in (["H", "H"], ["P", "P"], ["H", "P"], ["PH", "H"], ["P", "M"]):
         for hook in ("ok", "raise1", "always"):
             add(t, hook, 3)
+    out.sort(key=lambda c: -weight(c))
     return out
 
 
@@ -484,7 +491,8 @@ def run(ctx: Ctx) -> None:
     quiet_logs()
     request_bytes(0)
     ctx.extra.update({"schedules": 0, "max_bound_completed": 0, "configs": 0, "deadlocks": 0, "max_choice_points": 0,
-                      "hook_runs": 0, "hook_raises": 0, "rebinds": 0, "concurrent_notifies": 0, "max_steps": 0})
+                      "hook_runs": 0, "hook_raises": 0, "rebinds": 0, "concurrent_notifies": 0, "max_steps": 0,
+                      "config_schedules": []})
 
     def judged(x: S.Exec, cfg: dict[str, Any]) -> Any:
         o = oracle(ctx, cfg, x)
@@ -506,6 +514,7 @@ def run(ctx: Ctx) -> None:
         label = f"{'+'.join(cfg['tasks'])}/{cfg['hook']}/b{cfg['bound']}"
         st = S.explore(ctx, make_setup(cfg), lambda x, cfg=cfg: judged(x, cfg), bound=cfg["bound"], label=label, trace=TRACE)
         ctx.extra["schedules"] += st["schedules"]
+        ctx.extra["config_schedules"].append(f"{label}={st['schedules']}")
         ctx.extra["configs"] += 1
         ctx.extra["deadlocks"] += st["deadlocks"]
         ctx.extra["max_choice_points"] = max(ctx.extra["max_choice_points"], st["max_points"])
